@@ -34,35 +34,77 @@ impl EventGen for SvgElement {
         #[cfg(feature = "verif-hooks")]
         crate::verif::count_element_eval();
         context.inc_depth()?;
-        let res = match self.name.as_str() {
-            "loop" => LoopElement(self.clone()).generate_events(context),
-            "config" => ConfigElement(self.clone()).generate_events(context),
-            "reuse" => ReuseElement(self.clone()).generate_events(context),
-            "specs" => SpecsElement(self.clone()).generate_events(context),
-            "var" => VarElement(self.clone()).generate_events(context),
-            "if" => IfElement(self.clone()).generate_events(context),
-            "defaults" => DefaultsElement(self.clone()).generate_events(context),
-            "for" => ForElement(self.clone()).generate_events(context),
-            "g" | "symbol" => GroupElement(self.clone()).generate_events(context),
+        // This function is part of the recursion for nested elements, so its stack frame
+        // is kept small: each kind of element is constructed (from a single clone) in a
+        // function of its own rather than in an arm of a `match` here.
+        type Gen = fn(SvgElement, &mut TransformerContext) -> Result<(OutputList, Option<BoundingBox>)>;
+        let mut is_container = false;
+        let gen: Gen = match self.name.as_str() {
+            "loop" => |el, ctx| LoopElement(el).generate_events(ctx),
+            "config" => |el, ctx| ConfigElement(el).generate_events(ctx),
+            "reuse" => |el, ctx| ReuseElement(el).generate_events(ctx),
+            "specs" => |el, ctx| SpecsElement(el).generate_events(ctx),
+            "var" => |el, ctx| VarElement(el).generate_events(ctx),
+            "if" => |el, ctx| IfElement(el).generate_events(ctx),
+            "defaults" => |el, ctx| DefaultsElement(el).generate_events(ctx),
+            "for" => |el, ctx| ForElement(el).generate_events(ctx),
+            "g" | "symbol" => |el, ctx| GroupElement(el).generate_events(ctx),
             _ => {
-                if let Some((start, end)) = self.event_range {
-                    if start != end {
-                        let res = Container(self.clone()).generate_events(context);
-                        context.dec_depth()?;
-                        return res;
-                    }
+                is_container = matches!(self.event_range, Some((start, end)) if start != end);
+                if is_container {
+                    |el, ctx| Container(el).generate_events(ctx)
+                } else {
+                    |el, ctx| OtherElement(el).generate_events(ctx)
                 }
-                OtherElement(self.clone()).generate_events(context)
             }
         };
+        let res = gen(self.clone(), context);
+        if is_container {
+            context.dec_depth()?;
+            return res;
+        }
         // Ideally would have a single 'if bbox, set prev_element' here,
         // but is used for attribute lookup as well as bbox, so need the
         // full *resolved* element, which isn't available here.
         // TODO: see if just storing a 'prev_bbox' is feasible.
         context.dec_depth()?;
 
-        let (ol, mut bbox) = res?;
+        let (ol, bbox) = res?;
 
+        // (kept out of this function, which is part of the recursion for nested elements)
+        let bbox = self.clipped_bbox(&ol, bbox, context)?;
+
+        Ok((ol, bbox))
+    }
+}
+
+#[derive(Debug, Clone)]
+struct DefaultsElement(SvgElement);
+
+impl EventGen for DefaultsElement {
+    fn generate_events(
+        &self,
+        context: &mut TransformerContext,
+    ) -> Result<(OutputList, Option<BoundingBox>)> {
+        for ev in self.0.inner_events(context).unwrap_or_default() {
+            // we only care about Element-generating (i.e. start/empty) events
+            if let Ok(el) = SvgElement::try_from(ev.clone()) {
+                context.set_element_default(&el);
+            }
+        }
+        Ok((OutputList::new(), None))
+    }
+}
+
+impl SvgElement {
+    /// The bounding box of this (just generated) element after any `clip-path` it carries.
+    #[inline(never)]
+    fn clipped_bbox(
+        &self,
+        ol: &OutputList,
+        mut bbox: Option<BoundingBox>,
+        context: &mut TransformerContext,
+    ) -> Result<Option<BoundingBox>> {
         // (elements which are replaced by what they generate don't pass a clip-path
         // on to the output, so nothing is clipped)
         let is_output = !matches!(self.name.as_str(), "reuse" | "loop" | "for" | "if");
@@ -101,25 +143,7 @@ impl EventGen for SvgElement {
             }
         }
 
-        Ok((ol, bbox))
-    }
-}
-
-#[derive(Debug, Clone)]
-struct DefaultsElement(SvgElement);
-
-impl EventGen for DefaultsElement {
-    fn generate_events(
-        &self,
-        context: &mut TransformerContext,
-    ) -> Result<(OutputList, Option<BoundingBox>)> {
-        for ev in self.0.inner_events(context).unwrap_or_default() {
-            // we only care about Element-generating (i.e. start/empty) events
-            if let Ok(el) = SvgElement::try_from(ev.clone()) {
-                context.set_element_default(&el);
-            }
-        }
-        Ok((OutputList::new(), None))
+        Ok(bbox)
     }
 }
 
@@ -590,6 +614,65 @@ impl EventGen for Tag {
     }
 }
 
+/// Book-keeping for one tag of `process_tags()`: record its output and bounding box, or
+/// queue it for another attempt. Returns an error which must end processing at once.
+#[allow(clippy::too_many_arguments)]
+#[inline(never)]
+fn record_tag_result(
+    gen_result: Result<(OutputList, Option<BoundingBox>)>,
+    pending_id: Option<String>,
+    idx: &OrderIndex,
+    t: &Tag,
+    context: &mut TransformerContext,
+    idx_output: &mut BTreeMap<OrderIndex, OutputList>,
+    bbb: &mut BoundingBoxBuilder,
+    element_errors: &mut HashMap<OrderIndex, (SvgElement, SvgdxError)>,
+    remain: &mut Vec<(OrderIndex, Tag)>,
+) -> Option<SvgdxError> {
+    if let (Ok(_), Some(id)) = (&gen_result, &pending_id) {
+        context.clear_pending(id);
+    }
+    // Exceeding a configured limit is fatal rather than a reason to retry: a retry
+    // re-runs the element from already-advanced state and may then 'succeed'.
+    if let Err(
+        SvgdxError::LoopLimitError(..)
+        | SvgdxError::VarLimitError(..)
+        | SvgdxError::DepthLimitExceeded(..),
+    ) = &gen_result
+    {
+        return gen_result.err();
+    }
+    if !context.in_specs {
+        // if we *are* in a specs block, we don't care if there were errors;
+        // a specs entry may have insufficient context until reuse time.
+        // We do still call generate_events for side-effects including registering
+        // elements for reuse.
+        match gen_result {
+            Ok((events, maybe_bbox)) => {
+                if let Some(bbox) = maybe_bbox {
+                    bbb.extend(bbox); // TODO: should this pattern take an Option?
+                }
+                if !events.is_empty() {
+                    idx_output.insert(idx.clone(), events);
+                }
+            }
+            Err(err) => {
+                if let Some(el) = t.get_element() {
+                    if let SvgdxError::MultiError(err_list) = err {
+                        for (idx, (el, err)) in err_list {
+                            element_errors.insert(idx, (el, err));
+                        }
+                    } else {
+                        element_errors.insert(idx.clone(), (el, err));
+                    }
+                }
+                remain.push((idx.clone(), t.clone()));
+            }
+        }
+    }
+    None
+}
+
 fn process_tags(
     tags: &mut Vec<(OrderIndex, Tag)>,
     context: &mut TransformerContext,
@@ -605,54 +688,26 @@ fn process_tags(
         for (idx, t) in &mut tags.iter_mut() {
             #[cfg(feature = "verif-hooks")]
             crate::verif::sched_point("tag");
-            let idx = idx.clone();
-            let mut pending_id = None;
-            let el = if let Some(el) = t.get_element() {
-                // register early so reuse targets are available even if the element
-                // is not ready (e.g. within a specs block)
-                pending_id = context.register_pending(&el);
-                Some(el.clone())
-            } else {
-                None
-            };
+            // register early so reuse targets are available even if the element
+            // is not ready (e.g. within a specs block)
+            let pending_id = t
+                .get_element()
+                .and_then(|el| context.register_pending(&el));
             let gen_result = t.generate_events(context);
-            if let (Ok(_), Some(id)) = (&gen_result, &pending_id) {
-                context.clear_pending(id);
-            }
-            // Exceeding a configured limit is fatal rather than a reason to retry: a retry
-            // re-runs the element from already-advanced state and may then 'succeed'.
-            if let Err(
-                SvgdxError::LoopLimitError(..)
-                | SvgdxError::VarLimitError(..)
-                | SvgdxError::DepthLimitExceeded(..),
-            ) = &gen_result
-            {
-                return gen_result.map(|_| None);
-            }
-            if !context.in_specs {
-                // if we *are* in a specs block, we don't care if there were errors;
-                // a specs entry may have insufficient context until reuse time.
-                // We do still call generate_events for side-effects including registering
-                // elements for reuse.
-                if let Ok((events, maybe_bbox)) = gen_result {
-                    if let Some(bbox) = maybe_bbox {
-                        bbb.extend(bbox); // TODO: should this pattern take an Option?
-                    }
-                    if !events.is_empty() {
-                        idx_output.insert(idx, events);
-                    }
-                } else {
-                    if let (Some(el), Err(err)) = (el, gen_result) {
-                        if let SvgdxError::MultiError(err_list) = err {
-                            for (idx, (el, err)) in err_list {
-                                element_errors.insert(idx, (el, err));
-                            }
-                        } else {
-                            element_errors.insert(idx.clone(), (el, err));
-                        }
-                    }
-                    remain.push((idx, t.clone()));
-                }
+            // (what is done with the result is kept out of this function, which is part
+            // of the recursion for nested elements)
+            if let Some(fatal) = record_tag_result(
+                gen_result,
+                pending_id,
+                idx,
+                t,
+                context,
+                idx_output,
+                bbb,
+                &mut element_errors,
+                remain,
+            ) {
+                return Err(fatal);
             }
         }
         if tags.len() == remain.len() {
